@@ -198,12 +198,24 @@ pub fn gen(rng: &mut Prng, plan: &mut Plan) {
                 // unsigned ranges
                 let l = if rng.chance(1, 3) { RefNat::zero() } else { gen_bound(rng) };
                 let w = gen_bound(rng);
-                let (l, u) = match rng.below(10) {
+                let (mut l, mut u) = match rng.below(10) {
                     0 => (l.clone(), l.clone()), // empty
                     1 => (l.add(&w), l.clone()), // inverted (or empty when w == 0)
                     _ => (l.clone(), l.add(&w)),
                 };
-                let incl = rng.chance(1, 3);
+                let mut incl = rng.chance(1, 3);
+                if rng.chance(1, 7) {
+                    // the full range of a primitive unsigned type: 0 ..= uN::MAX (and neighbours)
+                    let nb = *rng.pick(&[8u64, 16, 32, 64, 128]);
+                    l = RefNat::zero();
+                    u = RefNat::one().shl(nb).sub(&RefNat::one()).unwrap();
+                    incl = rng.chance(2, 3);
+                    match rng.below(4) {
+                        0 => l = RefNat::one(),
+                        1 => u = u.add_small(1),
+                        _ => {}
+                    }
+                }
                 let width = if incl { u.sub(&l).map(|x| x.add_small(1)) } else { u.sub(&l) };
                 if let Some(wd) = width {
                     script_for_bound(rng, &wd, &mut words);
@@ -227,12 +239,26 @@ pub fn gen(rng: &mut Prng, plan: &mut Plan) {
                     _ => gen_int(rng),
                 };
                 let wi = RefInt::new(false, w.clone());
-                let (l, u) = match rng.below(10) {
+                let (mut l, mut u) = match rng.below(10) {
                     0 => (l.clone(), l.clone()),
                     1 => (l.add(&wi), l.clone()),
                     _ => (l.clone(), l.add(&wi)),
                 };
-                let incl = rng.chance(1, 3);
+                let mut incl = rng.chance(1, 3);
+                if rng.chance(1, 7) {
+                    // the full range of a primitive signed type (and its neighbours): iN::MIN ..= iN::MAX
+                    let nb = *rng.pick(&[8u64, 16, 32, 64, 128]);
+                    let half = RefNat::one().shl(nb - 1);
+                    l = RefInt::new(true, half.clone());
+                    u = RefInt::new(false, half.sub(&RefNat::one()).unwrap());
+                    incl = rng.chance(2, 3);
+                    match rng.below(5) {
+                        0 => l = l.add(&RefInt::from_i128(1)),
+                        1 => u = u.add(&RefInt::from_i128(1)),
+                        2 => l = l.sub(&RefInt::from_i128(1)),
+                        _ => {}
+                    }
+                }
                 let d = u.sub(&l);
                 if !d.neg {
                     let wd = if incl { d.mag.add_small(1) } else { d.mag.clone() };
